@@ -1,7 +1,8 @@
 /-
 C11 (refinement, continued) — `rotate` and `reverse`.  Both move items by reading their value
-and storing it again (`rotate`: pop at one end, append at the other; `reverse`: read everything
-back to front, clear, append), so every moved item gets a new queue key — one unit of the budget
+and storing it again (`rotate`: pop at one end, append at the other; `reverse`: copy everything
+out back to front — into a temporary Deque, which must be able to store it —, clear, extend), so
+every moved item gets a new queue key — one unit of the budget
 per move — and a new stored representation.
 -- added: `∀ e ∈ m.items, restores E cfg e` — storing the value of an item again gives the same
 stored representation (deterministic serializer, `loads` inverts it); `rotate_needs_restores`
@@ -9,6 +10,7 @@ is the counterexample.
 -/
 import DC.Properties.C11_RefineSearch
 import DC.Properties.C11_RefineExtend
+import DC.Proofs.DRefineRotate
 
 namespace DC.Deque
 open DC.Cache DC.Spec DC.DSpec
@@ -30,8 +32,12 @@ def rot1 (E : Externals) (now : Int) (right : Bool) (d : Deque) : Deque :=
 theorem rotateLoop_succ (E : Externals) (now : Int) (right : Bool) (k : Nat) (d : Deque) :
     rotateLoop E now right (k + 1) d =
       match (d.pop E now (!right)).2 with
-      | .val v => rotateLoop E now right k ((d.pop E now (!right)).1.append E now v right).1
-      | _ => (d.pop E now (!right)).1 := rfl
+      | .val v =>
+        match (d.pop E now (!right)).1.append E now v right with
+        | (d2, .exc e) => (d2, .exc e)
+        | (d2, _) => rotateLoop E now right k d2
+      | .exc e => if e == "IndexError" then ((d.pop E now (!right)).1, .none) else ((d.pop E now (!right)).1, .exc e)
+      | _ => rotateLoop E now right k (d.pop E now (!right)).1 := rfl
 
 /-- one step on the list -/
 def srot (right : Bool) (l : List Spec.Entry) : List Spec.Entry := if right then rotr l else rotl l
@@ -98,7 +104,9 @@ theorem rot1_all (d : Deque) (m : DList) (n : Nat) (E : Externals) (now : Int) (
     (hok : OkN d (n + 1)) (hr : DRefines d m)
     (hrt : ∀ e ∈ m.items, restores E d.cache.cfg e = true) :
     DRefines (rot1 E now right d) { m with items := srot right m.items } ∧
-    OkN (rot1 E now right d) n ∧ (rot1 E now right d).cache.cfg = d.cache.cfg := by
+    OkN (rot1 E now right d) n ∧ (rot1 E now right d).cache.cfg = d.cache.cfg ∧
+    (((d.pop E now (!right)).2 = .exc "IndexError" ∧ m.items = []) ∨
+     (∃ v, (d.pop E now (!right)).2 = .val v ∧ ((d.pop E now (!right)).1.append E now v right).2 = .none)) := by
   obtain ⟨hpo, hpr⟩ := pop_drefines d m (n + 1) E now (!right) hok hr
   have hpok := pop_okN d (n + 1) E now (!right) hok
   have hpcfg : (d.pop E now (!right)).1.cache.cfg = d.cache.cfg := pull_cfg d (n + 1) E now (!right) hok
@@ -110,7 +118,7 @@ theorem rot1_all (d : Deque) (m : DList) (n : Nat) (E : Externals) (now : Int) (
     rw [hh] at hpo hpr
     simp only at hpo hpr ⊢
     rw [hpo]
-    exact ⟨hpr, hpok.mono, hpcfg⟩
+    exact ⟨hpr, hpok.mono, hpcfg, .inl ⟨rfl, drf_end_none hh⟩⟩
   | some e =>
     rw [hh] at hpo hpr
     simp only at hpo hpr ⊢
@@ -121,12 +129,12 @@ theorem rot1_all (d : Deque) (m : DList) (n : Nat) (E : Externals) (now : Int) (
     obtain ⟨v, hv, hef⟩ := restores_spec (hrt e hmem)
     rw [hpo, hv]
     simp only
-    obtain ⟨-, har⟩ := append_drefines (d.pop E now (!right)).1 _ n E now v right hpok hpr
+    obtain ⟨hao, har⟩ := append_drefines (d.pop E now (!right)).1 _ n E now v right hpok hpr
     have haok := append_okN (d.pop E now (!right)).1 n E now v right hpok
     have hacfg := append_cfg (d.pop E now (!right)).1 n E now v right hpok
-    rw [hpcfg] at har
-    rw [spec_append_some _ E _ v right e hef] at har
-    refine ⟨?_, haok, hacfg.trans hpcfg⟩
+    rw [hpcfg] at har hao
+    rw [spec_append_some _ E _ v right e hef] at har hao
+    refine ⟨?_, haok, hacfg.trans hpcfg, .inr ⟨v, rfl, hao⟩⟩
     -- no trimming: the list is as long as before
     have hbound : ∀ k, m.maxlen = some k → m.items.length ≤ k := by
       intro k hk
@@ -163,41 +171,19 @@ theorem rot1_all (d : Deque) (m : DList) (n : Nat) (E : Externals) (now : Int) (
 /-- `k` steps -/
 theorem rotateLoop_all (E : Externals) (now : Int) (right : Bool) : ∀ (k : Nat) (d : Deque) (m : DList) (n : Nat),
     OkN d (n + k) → DRefines d m → (∀ e ∈ m.items, restores E d.cache.cfg e = true) →
-    DRefines (rotateLoop E now right k d) { m with items := iter_ (srot right) k m.items } ∧
-    OkN (rotateLoop E now right k d) n ∧ (rotateLoop E now right k d).cache.cfg = d.cache.cfg
-  | 0, d, m, n, hok, hr, _ => ⟨hr, hok, rfl⟩
+    (rotateLoop E now right k d).2 = .none ∧
+    DRefines (rotateLoop E now right k d).1 { m with items := iter_ (srot right) k m.items } ∧
+    OkN (rotateLoop E now right k d).1 n ∧ (rotateLoop E now right k d).1.cache.cfg = d.cache.cfg
+  | 0, d, m, n, hok, hr, _ => ⟨rfl, hr, hok, rfl⟩
   | k + 1, d, m, n, hok, hr, hrt => by
     have hok1 : OkN d ((n + k) + 1) := hok
-    obtain ⟨h1, h2, h3⟩ := rot1_all d m (n + k) E now right hok1 hr hrt
+    obtain ⟨h1, h2, h3, hcase⟩ := rot1_all d m (n + k) E now right hok1 hr hrt
     rw [rotateLoop_succ]
     unfold rot1 at h1 h2 h3
-    show _ ∧ _ ∧ _
-    cases ho : (d.pop E now (!right)).2 with
-    | val v =>
-      rw [ho] at h1 h2 h3
+    rcases hcase with ⟨ho, hnil⟩ | ⟨v, ho, hao⟩
+    · -- the pop found nothing: the deque is empty, and stays so
+      rw [ho] at h1 h2 h3 ⊢
       simp only at h1 h2 h3 ⊢
-      obtain ⟨g1, g2, g3⟩ := rotateLoop_all E now right k _ _ n h2 h1
-        (fun e he => by rw [h3]; exact hrt e (srot_mem right m.items e he))
-      exact ⟨g1, g2, g3.trans h3⟩
-    | _ =>
-      -- the pop found nothing: the deque is empty, and stays so
-      rw [ho] at h1 h2 h3
-      simp only at h1 h2 h3 ⊢
-      obtain ⟨hpo, -⟩ := pop_drefines d m (n + k + 1) E now (!right) hok1 hr
-      have hnil : m.items = [] := by
-        unfold DSpec.pop at hpo
-        cases hh : (if (!right) = true then m.items.head? else m.items.getLast?) with
-        | none => exact drf_end_none hh
-        | some e =>
-          rw [hh] at hpo
-          simp only at hpo
-          have hmem : e ∈ m.items := by
-            cases right with
-            | true => exact List.mem_of_getLast? hh
-            | false => exact List.mem_of_head? hh
-          obtain ⟨v, hv, -⟩ := restores_spec (hrt e hmem)
-          rw [ho, hv] at hpo
-          cases hpo
       have hit : ∀ j, iter_ (srot right) j ([] : List Spec.Entry) = [] := by
         intro j
         induction j with
@@ -205,7 +191,22 @@ theorem rotateLoop_all (E : Externals) (now : Int) (right : Bool) : ∀ (k : Nat
         | succ j ih => show iter_ (srot right) j (srot right []) = []; rw [srot_nil]; exact ih
       rw [hnil, hit]
       rw [hnil, srot_nil] at h1
-      exact ⟨h1, h2.weaken, h3⟩
+      exact ⟨rfl, h1, h2.weaken, h3⟩
+    · rw [ho] at h1 h2 h3 ⊢
+      simp only at h1 h2 h3 ⊢
+      obtain ⟨g0, g1, g2, g3⟩ := rotateLoop_all E now right k _ _ n h2 h1
+        (fun e he => by rw [h3]; exact hrt e (srot_mem right m.items e he))
+      have hstep : (match (d.pop E now (!right)).1.append E now v right with
+          | (d2, .exc e) => (d2, Out.exc e)
+          | (d2, _) => rotateLoop E now right k d2) =
+          rotateLoop E now right k ((d.pop E now (!right)).1.append E now v right).1 := by
+        generalize (d.pop E now (!right)).1.append E now v right = pr at hao
+        obtain ⟨d2, o2⟩ := pr
+        simp only at hao
+        subst hao
+        rfl
+      rw [hstep]
+      exact ⟨g0, g1, g2, g3.trans h3⟩
 
 theorem iter_srot (right : Bool) (k : Nat) (l : List Spec.Entry) :
     iter_ (srot right) k l = if right then iter_ rotr k l else iter_ rotl k l := by
@@ -242,14 +243,14 @@ theorem rotate_all (d : Deque) (m : DList) (n : Nat) (E : Externals) (now : Int)
     by_cases hs : 0 ≤ steps
     · rw [if_pos hs] at hok
       rw [if_pos (show steps ≥ 0 from hs), if_pos hs]
-      obtain ⟨h1, h2, h3⟩ := rotateLoop_all E now true _ d m n hok hr hrt
+      obtain ⟨h0, h1, h2, h3⟩ := rotateLoop_all E now true _ d m n hok hr hrt
       rw [iter_srot] at h1
-      exact ⟨rfl, h1, h2, h3⟩
+      exact ⟨h0, h1, h2, h3⟩
     · rw [if_neg hs] at hok
       rw [if_neg (show ¬ steps ≥ 0 from hs), if_neg hs]
-      obtain ⟨h1, h2, h3⟩ := rotateLoop_all E now false _ d m n hok hr hrt
+      obtain ⟨h0, h1, h2, h3⟩ := rotateLoop_all E now false _ d m n hok hr hrt
       rw [iter_srot] at h1
-      exact ⟨rfl, h1, h2, h3⟩
+      exact ⟨h0, h1, h2, h3⟩
 
 /-- `rotate(steps)`: the list is rotated, one unit of the budget per single step -/
 theorem rotate_drefines (d : Deque) (m : DList) (n : Nat) (E : Externals) (now : Int) (steps : Int)
@@ -270,41 +271,76 @@ theorem rotate_okN (d : Deque) (n : Nat) (E : Externals) (now : Int) (steps : In
 
 /-! ### `reverse` -/
 
-/-- the step of the refill loop of `reverse` -/
-def refillStep (E : Externals) (now : Int) (acc : Deque) (o : Out) : Deque :=
-  match o with
-  | .val v => (acc.append E now v false).1
-  | _ => acc
-
 theorem reverse_eq (d : Deque) (E : Externals) (now : Int) :
     d.reverse E now =
-      ((Fanout.outList (d.iterVals E now true).2).foldl (refillStep E now)
-        ((d.iterVals E now true).1.clear).1, .none) := rfl
+      if (outVals (Fanout.outList (d.iterVals E now true).2)).all (tempStorable E) then
+        ((d.iterVals E now true).1.clear).1.extend E now (outVals (Fanout.outList (d.iterVals E now true).2)) false
+      else ((d.iterVals E now true).1, .exc "UnicodeEncodeError") := rfl
 
-/-- appending the values of the entries `L` again, one by one -/
-theorem refill_all (E : Externals) (now : Int) (cfg : Cfg) : ∀ (L : List Spec.Entry) (d : Deque) (m : DList) (n : Nat),
-    d.cache.cfg = cfg → OkN d (n + L.length) → DRefines d m → (∀ e ∈ L, restores E cfg e = true) →
-    (∀ k, m.maxlen = some k → m.items.length + L.length ≤ k) →
-    DRefines ((L.map (fun e => valueOf e E cfg)).foldl (refillStep E now) d) { m with items := m.items ++ L } ∧
-    OkN ((L.map (fun e => valueOf e E cfg)).foldl (refillStep E now) d) n ∧
-    ((L.map (fun e => valueOf e E cfg)).foldl (refillStep E now) d).cache.cfg = cfg
-  | [], d, m, n, hcfg, hok, hr, _, _ => by
-    refine ⟨?_, hok, hcfg⟩
-    show DRefines d { m with items := m.items ++ [] }
-    rw [List.append_nil]; exact hr
-  | e :: L, d, m, n, hcfg, hok, hr, hrt, hb => by
+theorem outVals_cons_val (v : PyVal) (rest : List Out) : outVals (.val v :: rest) = v :: outVals rest := rfl
+
+/-- what a deque with the pickle `Disk` can store, the temporary Deque of `reverse` can store too
+(whether a value can be stored does not depend on `disk_min_file_size`) -/
+theorem tempStorable_of_entryFor (E : Externals) (cfg : Cfg) (hdisk : cfg.disk = .pickle) (v : PyVal)
+    (e : Spec.Entry) (h : entryFor E cfg v = some e) : tempStorable E v = true := by
+  rcases entryFor_cases E cfg v with ⟨h0, -⟩ | ⟨p, hpl, hbind, -⟩
+  · rw [h0] at h; cases h
+  · rw [hdisk] at hpl
+    unfold tempStorable
+    show (match Disk.place E 32768 v false with
+      | .error _ => false | .ok (.inline _ sv) => bindable sv | .ok (.file _ _) => true) = true
+    have hpl' : Disk.place E cfg.minFileSize v false = .ok p := hpl
+    unfold Disk.place at hpl' ⊢
+    simp only [Bool.false_eq_true, if_false] at hpl' ⊢
+    cases v with
+    | str s =>
+      simp only at hpl' ⊢
+      have hu : (utf8enc s).isSome = true := by
+        split at hpl'
+        · cases hpl'; exact hbind
+        · split at hpl'
+          · assumption
+          · cases hpl'
+      by_cases hl : s.length < 32768
+      · simp only [hl, if_true]; exact hu
+      · simp only [hl, if_false, hu, if_true]
+    | int i =>
+      simp only
+      by_cases hi : inI64 i = true
+      · simp only [hi, if_true]; exact hi
+      · simp only [hi, Bool.false_eq_true, if_false]
+        by_cases hl : (E.dumpsV (.int i)).length < 32768 <;> simp only [hl, if_true, if_false] <;> rfl
+    | float f =>
+      simp only
+      by_cases hn : floatIsNaN f = true
+      · simp only [hn, if_true]
+        by_cases hl : (E.dumpsV (.float f)).length < 32768 <;> simp only [hl, if_true, if_false] <;> rfl
+      · simp only [hn, Bool.false_eq_true, if_false]; rfl
+    | bytes b =>
+      simp only
+      by_cases hl : b.length < 32768 <;> simp only [hl, if_true, if_false] <;> rfl
+    | none =>
+      simp only
+      by_cases hl : (E.dumpsV .none).length < 32768 <;> simp only [hl, if_true, if_false] <;> rfl
+    | obj o =>
+      simp only
+      by_cases hl : (E.dumpsV (.obj o)).length < 32768 <;> simp only [hl, if_true, if_false] <;> rfl
+
+/-- extending the bounded list with the values of the entries `L` (each stored again as it was, no
+overflow) appends the entries -/
+theorem spec_extend_restores (E : Externals) (cfg : Cfg) : ∀ (L : List Spec.Entry) (m : DList),
+    (∀ e ∈ L, restores E cfg e = true) → (∀ k, m.maxlen = some k → m.items.length + L.length ≤ k) →
+    DSpec.extend m E cfg (outVals (L.map (fun e => valueOf e E cfg))) false =
+      ({ m with items := m.items ++ L }, .none) ∧
+    (outVals (L.map (fun e => valueOf e E cfg))).length = L.length ∧
+    (cfg.disk = .pickle → (outVals (L.map (fun e => valueOf e E cfg))).all (tempStorable E) = true)
+  | [], m, _, _ => by
+    refine ⟨?_, rfl, fun _ => rfl⟩
+    show (m, Out.none) = _
+    rw [List.append_nil]
+  | e :: L, m, hrt, hb => by
     obtain ⟨v, hv, hef⟩ := restores_spec (hrt e List.mem_cons_self)
-    have hok1 : OkN d ((n + L.length) + 1) := by
-      have : n + (e :: L).length = (n + L.length) + 1 := by simp only [List.length_cons]; omega
-      rw [← this]; exact hok
-    simp only [List.map_cons, List.foldl_cons, hv]
-    show DRefines (List.foldl _ (d.append E now v false).1 _) _ ∧ OkN (List.foldl _ (d.append E now v false).1 _) _ ∧
-      (List.foldl _ (d.append E now v false).1 _).cache.cfg = _
-    obtain ⟨-, har⟩ := append_drefines d m _ E now v false hok1 hr
-    have haok := append_okN d _ E now v false hok1
-    have hacfg := append_cfg d _ E now v false hok1
-    rw [hcfg] at har
-    rw [spec_append_some m E cfg v false e hef] at har
+    simp only [List.map_cons, hv, outVals_cons_val]
     have hnotrim : trimTo m.maxlen false (m.items ++ [e]) = m.items ++ [e] := by
       unfold trimTo overLen
       cases hm : m.maxlen with
@@ -313,17 +349,19 @@ theorem refill_all (E : Externals) (now : Int) (cfg : Cfg) : ∀ (L : List Spec.
         have := hb k hm
         simp only [decide_eq_true_eq, List.length_append, List.length_cons, List.length_nil] at this ⊢
         rw [if_neg (by omega)]
-    simp only [Bool.false_eq_true, if_false] at har
-    rw [hnotrim] at har
-    obtain ⟨g1, g2, g3⟩ := refill_all E now cfg L (d.append E now v false).1 { m with items := m.items ++ [e] } n
-      (hacfg.trans hcfg) haok har (fun x hx => hrt x (List.mem_cons_of_mem _ hx))
+    obtain ⟨g1, g2, g3⟩ := spec_extend_restores E cfg L { m with items := m.items ++ [e] }
+      (fun x hx => hrt x (List.mem_cons_of_mem _ hx))
       (fun k hk => by
         have := hb k hk
         simp only [List.length_append, List.length_cons, List.length_nil] at this ⊢
         omega)
-    refine ⟨?_, g2, g3⟩
-    simp only [List.append_assoc, List.cons_append, List.nil_append] at g1
-    exact g1
+    refine ⟨?_, by simp only [List.length_cons, g2], fun hd => ?_⟩
+    · rw [spec_extend_cons_some m E cfg v _ false e hef, spec_append_some m E cfg v false e hef]
+      simp only [Bool.false_eq_true, if_false]
+      rw [hnotrim, g1]
+      simp only [List.append_assoc, List.cons_append, List.nil_append]
+    · simp only [List.all_cons, Bool.and_eq_true]
+      exact ⟨tempStorable_of_entryFor E cfg hd v e hef, g3 hd⟩
 
 theorem reverse_all (d : Deque) (m : DList) (n : Nat) (E : Externals) (now : Int)
     (hok : OkN d (n + (items d).length)) (hr : DRefines d m)
@@ -346,16 +384,19 @@ theorem reverse_all (d : Deque) (m : DList) (n : Nat) (E : Externals) (now : Int
   have hvals : Fanout.outList (d.iterVals E now true).2 =
       m.items.reverse.map (fun e => valueOf e E d.cache.cfg) := by
     rw [hi1]; rfl
-  rw [reverse_eq, hvals]
   have hlen : m.items.reverse.length = (items d).length := by rw [List.length_reverse, hr.length]
-  obtain ⟨g1, g2, g3⟩ := refill_all E now d.cache.cfg m.items.reverse ((d.iterVals E now true).1.clear).1
-    (DSpec.clear m).1 n hccfg (by rw [hlen]; exact hcok) hc2
+  obtain ⟨s1, s2, s3⟩ := spec_extend_restores E d.cache.cfg m.items.reverse (DSpec.clear m).1
     (fun e he => hrt e (List.mem_reverse.1 he))
     (fun k hk => by
       have := hok.bounded k (by rw [hr.2]; exact hk)
       show 0 + m.items.reverse.length ≤ k
       rw [hlen]; omega)
-  refine ⟨rfl, ?_, g2, g3⟩
+  rw [reverse_eq, hvals, if_pos (s3 hdisk)]
+  obtain ⟨g0, g1, g2, g3⟩ := extend_all ((d.iterVals E now true).1.clear).1 (DSpec.clear m).1 n E now
+    (outVals (m.items.reverse.map (fun e => valueOf e E d.cache.cfg))) false
+    (by rw [s2, hlen]; exact hcok) hc2
+  rw [hccfg, s1] at g0 g1
+  refine ⟨g0, ?_, g2, g3.trans hccfg⟩
   simpa [DSpec.clear, DSpec.reverse] using g1
 
 /-- `reverse()`: the list is reversed; one unit of the budget per item -/
@@ -379,3 +420,39 @@ theorem reverse_okN (d : Deque) (n : Nat) (E : Externals) (now : Int)
       exact hrt r hr)).2.2.1
 
 end DC.Deque
+
+namespace DC.DSpec
+
+/-- **`rotate(steps)` is `steps` single steps**: the bounded list after `DSpec.rotate m steps` is
+`m.items` rotated one step to the right `steps` times (`collections.deque.rotate`: "rotating one
+step to the right is equivalent to `d.appendleft(d.pop())`"), for negative `steps` one step to the
+left `-steps` times — for every integer and every list, the empty one included -/
+theorem spec_rotate_eq_iter (m : DList) (steps : Int) :
+    rotate m steps =
+      ({ m with items := if 0 ≤ steps then iter_ rotr steps.toNat m.items
+                         else iter_ rotl (-steps).toNat m.items }, .none) := by
+  unfold rotate
+  by_cases h0 : m.items.length = 0
+  · rw [if_pos h0]
+    have hnil : m.items = [] := List.eq_nil_of_length_eq_zero h0
+    have : (if 0 ≤ steps then iter_ rotr steps.toNat m.items else iter_ rotl (-steps).toNat m.items) = m.items := by
+      rw [hnil]
+      split
+      · exact iter_nil rotr rfl _
+      · exact iter_nil rotl rfl _
+    rw [this]
+  · rw [if_neg h0]
+    by_cases hs : 0 ≤ steps
+    · rw [if_pos hs, if_pos hs]
+      rw [iter_mod rotr rotr_length iter_rotr_len m.items steps.toNat]
+      obtain ⟨s, rfl⟩ := Int.eq_ofNat_of_zero_le hs
+      have : (((s : Nat) : Int) % (m.items.length : Int)).toNat = s % m.items.length := by omega
+      rw [this, Int.toNat_natCast]
+    · rw [if_neg hs, if_neg hs]
+      rw [iter_mod rotl rotl_length iter_rotl_len m.items (-steps).toNat]
+      obtain ⟨s, hs'⟩ := Int.eq_ofNat_of_zero_le (show 0 ≤ -steps by omega)
+      rw [hs']
+      have : (((s : Nat) : Int) % (m.items.length : Int)).toNat = s % m.items.length := by omega
+      rw [this, Int.toNat_natCast]
+
+end DC.DSpec
